@@ -254,8 +254,19 @@ func (w *EvalRuleCondition) Do(ctx *Context, loc *Location) {
 			// Each action gets its own bindings.  Actions can
 			// run concurrently, and executing an action can
 			// write to its bindings (see 'maybeCopyEvent').
+			//
+			// Its own all the way down: a script works on
+			// the Go maps it is given in place, so a bound
+			// object that the actions shared was one map
+			// for all of them (what one action wrote,
+			// another saw; and the runtime ends the process
+			// when they do that at the same time).  The
+			// event is left to 'maybeCopyEvent'.
 			own := make(map[string]interface{}, len(bs))
 			for k, v := range bs {
+				if k != "?event" {
+					v = Copy(v)
+				}
 				own[k] = v
 			}
 			child := &ExecRuleAction{
